@@ -9,6 +9,26 @@ TRUST=("go/packages + go/ssa construction; the vendored x/tools interpreter's co
        "mathematical integers (no overflow); cvc5 1.0 / z3 verdicts (any unknown/error makes the run inconclusive, exit 2)")
 
 claimed={
+ "C02":{"category":"model_checking",
+   "text":"every hand-written checker's Check is executed twice on the same lazily initialised file with the iteration order of every Go map (<=4 entries) an independent nondeterministic permutation at each range statement; the two diagnostic sequences must be equal; candidates are realised and the real checker is run 200 times natively, only differing outputs count",
+   "design_ref":"DESIGN.md 3 C02","technique":"symbolic execution of go/ssa with adversarial map order + SMT, realisation + repeated native replay",
+   "note":TRUST+"; bounds: K=2, lists<=3 (4 for the import checkers), maps<=4 entries; goroutine timing is C04; the ruleguard engine's own order is outside"},
+ "C03":{"category":"model_checking",
+   "text":"one step of history from the initial checker state against a fresh instance: (i) visitor level: instance A visits an arbitrary lazy input y then x, a fresh instance B visits x only; (ii) through SetFileInfo+Check for two lazy files; diagnostics for x must agree. Checkers that assign to their own fields (found by reading the checker sources) get the deep budgets",
+   "design_ref":"DESIGN.md 3 C03","technique":"relational symbolic execution of go/ssa (reused vs fresh instance) + SMT, realisation + native replay",
+   "note":TRUST+"; one-step history, not an inductive invariant over arbitrary pre-states (deviation from DESIGN 3 C03); package order on the command line outside"},
+ "C11":{"category":"translation_validation",
+   "text":"the real regexpSimplify checker runs natively on the repository's examples plus ~31k patterns of a bounded grammar; each proposed rewrite A->B is judged by the solver: language equality over all byte strings (regex theory, unbounded) and equality of leftmost-first match extents and all capture-group extents for every subject up to length 4 (6 thorough) through an SMT encoding of Go's backtracking priorities; group counts/names compared natively",
+   "design_ref":"DESIGN.md 3 C11","technique":"translation validation: concrete implementation runs, SMT decides equivalence over all subjects (regex theory + bounded leftmost-first encoding), native replay with regexp.FindStringSubmatchIndex",
+   "note":"pattern dimension is enumerated, not symbolic; subjects beyond the length bound are covered only by the language query; trusted: regexp/syntax parser, the regexsem encoding (every sat answer was replayed natively), z3/cvc5"},
+ "C13":{"category":"model_checking",
+   "text":"for two lazily initialised function declarations d1, d2 (source order) the diagnostics of the file [d1,d2] must be those of [d1] followed by those of [d2], for every hand-written checker except the documented file-order ones",
+   "design_ref":"DESIGN.md 3 C13","technique":"relational symbolic execution of go/ssa + SMT, realisation + native replay",
+   "note":TRUST+"; bounds K=3, lists<=2; padding/blank lines are implied by symbolic positions only; the curated example files are not transformed (second sentence of the property outside)"},
+ "C20":{"category":"model_checking",
+   "text":"for the checkers whose documented subject is a builtin or a standard package (table in the harness) GSX explores a visit and, when a diagnostic was produced, asserts over the lazy types.Info that the identifier matched by spelling resolves to that builtin / package; candidates are realised with shadowing declarations and confirmed with the real checker plus go/types",
+   "design_ref":"DESIGN.md 3 C20","technique":"generalised symbolic execution of go/ssa + SMT, realisation with shadowing declarations + native replay against go/types",
+   "note":TRUST+"; 9 hand-written checkers; rule-based checkers outside"},
  "C05":{"category":"model_checking",
    "text":"the C01 explorations with the write monitor: every cell of the lazily created syntax tree, comment lists and types.Info tables is write-protected; any store, map update or in-place append into a protected cell on an explored path is a candidate, realised as a Go program and confirmed by fingerprinting the real tree before/after the real checker runs; registered parameter values are checked around the ruleguard constructor",
    "design_ref":"DESIGN.md 3 C05","technique":"generalised symbolic execution of go/ssa with a write monitor + SMT, realisation + native replay",
